@@ -123,6 +123,7 @@ def toEvent (s : St) (name : String) (c sz : Int) (rest : List Line) : Except St
     | none => .error s!"desync: no open literal saved ({c},{sz})"
   | "local.argtypes" => .ok (some (.argTypes (c - s.loc.tOff).toNat))
   | "local.cleanup" => .ok (some .cleanup)
+  | "local.fn_reset" => .ok (some .fnReset)
   | "mem.req" =>
     let sync := match rest with
       | .out (.ev "mem.before" c0 m0) :: _ => some (c0.toNat, m0.toNat)
